@@ -338,29 +338,31 @@ DeepPrelude ==
   "def mkt(n):\n  v = ()\n  for i in range(n): v = (v,)\n  return v\n" \o
   "def mkd(n):\n  v = {}\n  for i in range(n): v = {'k': v}\n  return v\n" \o
   "def mks(n):\n  v = struct()\n  for i in range(n): v = struct(f = v)\n  return v\n"
-\* <<name, parts>>: the program is DeepPrelude followed by the parts joined by the depth n
+\* <<name, parts, e>>: the program is DeepPrelude followed by the parts joined by the depth n; depths up to 2^e.
+\* e < 21 where the operation takes time quadratic in the depth (printing keeps a path / copies the text of
+\* every level) or where a smaller depth already decides it: speed is outside the property
 DeepOps == {
-  <<"deep-str-list", <<"z = len(str(mkl(", ")))\n">>>>,
-  <<"deep-str-tuple", <<"z = len(repr(mkt(", ")))\n">>>>,
-  <<"deep-str-dict", <<"z = len(str(mkd(", ")))\n">>>>,
-  <<"deep-str-struct", <<"z = len(str(mks(", ")))\n">>>>,
-  <<"deep-json-encode", <<"z = len(json.encode(mkl(", ")))\n">>>>,
-  <<"deep-json-encdict", <<"z = len(json.encode(mkd(", ")))\n">>>>,
-  <<"deep-json-decode", <<"z = type(json.decode('[' * ", " + ']' * ", "))\n">>>>,
-  <<"deep-json-decdict", <<"z = type(json.decode('{\"k\":' * ", " + '1' + '}' * ", "))\n">>>>,
-  <<"deep-json-indent", <<"z = len(json.indent('[' * ", " + ']' * ", "))\n">>>>,
-  <<"deep-freeze-list", <<"g = mkl(", ")\n">>>>,
-  <<"deep-freeze-struct", <<"g = mks(", ")\n">>>>,
-  <<"deep-hash-tuple", <<"z = {mkt(", "): 1}\n">>>>,
-  <<"deep-hash-struct", <<"z = {mks(", "): 1}\n">>>>,
-  <<"deep-eq-list", <<"z = mkl(", ") == mkl(", ")\n">>>>,
-  <<"deep-lt-tuple", <<"z = mkt(", ") < mkt(", ")\n">>>>,
-  <<"deep-eq-struct", <<"z = mks(", ") == mks(", ")\n">>>>,
-  <<"deep-in-list", <<"z = mkl(", ") in [mkl(", ")]\n">>>>,
-  <<"deep-sorted", <<"z = sorted([mkt(", "), mkt(", ")])\n">>>>,
-  <<"deep-recursion", <<"def r(n):\n  if n == 0: return 0\n  return 1 + r(n - 1)\nz = r(", ")\n">>>>,
-  <<"deep-key-recursion", <<"def r(n):\n  if n == 0: return 0\n  return max([n], key = lambda v: r(n - 1))\nz = r(", ")\n">>>>,
-  <<"deep-call-args", <<"def r(n, *a):\n  if n == 0: return len(a)\n  return r(n - 1, *a)\nz = r(", ", 1, 2, 3)\n">>>> }
+  <<"deep-str-list", <<"z = len(str(mkl(", ")))\n">>, 17>>,
+  <<"deep-str-tuple", <<"z = len(repr(mkt(", ")))\n">>, 21>>,
+  <<"deep-str-dict", <<"z = len(str(mkd(", ")))\n">>, 17>>,
+  <<"deep-str-struct", <<"z = len(str(mks(", ")))\n">>, 14>>,
+  <<"deep-json-encode", <<"z = len(json.encode(mkl(", ")))\n">>, 20>>,
+  <<"deep-json-encdict", <<"z = len(json.encode(mkd(", ")))\n">>, 20>>,
+  <<"deep-json-decode", <<"z = type(json.decode('[' * ", " + ']' * ", "))\n">>, 21>>,
+  <<"deep-json-decdict", <<"z = type(json.decode('{\"k\":' * ", " + '1' + '}' * ", "))\n">>, 21>>,
+  <<"deep-json-indent", <<"z = len(json.indent('[' * ", " + ']' * ", "))\n">>, 21>>,
+  <<"deep-freeze-list", <<"g = mkl(", ")\n">>, 21>>,
+  <<"deep-freeze-struct", <<"g = mks(", ")\n">>, 21>>,
+  <<"deep-hash-tuple", <<"z = {mkt(", "): 1}\n">>, 21>>,
+  <<"deep-hash-struct", <<"z = {mks(", "): 1}\n">>, 21>>,
+  <<"deep-eq-list", <<"z = mkl(", ") == mkl(", ")\n">>, 21>>,
+  <<"deep-lt-tuple", <<"z = mkt(", ") < mkt(", ")\n">>, 21>>,
+  <<"deep-eq-struct", <<"z = mks(", ") == mks(", ")\n">>, 21>>,
+  <<"deep-in-list", <<"z = mkl(", ") in [mkl(", ")]\n">>, 21>>,
+  <<"deep-sorted", <<"z = sorted([mkt(", "), mkt(", ")])\n">>, 21>>,
+  <<"deep-recursion", <<"def r(n):\n  if n == 0: return 0\n  return 1 + r(n - 1)\nz = r(", ")\n">>, 21>>,
+  <<"deep-key-recursion", <<"def r(n):\n  if n == 0: return 0\n  return max([n], key = lambda v: r(n - 1))\nz = r(", ")\n">>, 21>>,
+  <<"deep-call-args", <<"def r(n, *a):\n  if n == 0: return len(a)\n  return r(n - 1, *a)\nz = r(", ", 1, 2, 3)\n">>, 21>> }
 RECURSIVE JoinN(_, _)
 JoinN(parts, n) == IF Len(parts) = 1 THEN parts[1] ELSE parts[1] \o ToString(n) \o JoinN(Tail(parts), n)
 DeepText(op, n) == DeepPrelude \o JoinN(op[2], n)
